@@ -262,3 +262,31 @@ func VerifC01() {
 	}
 	rt.Reach("c01.done")
 }
+
+// VerifC01DoubleExit: two goroutines exit the same passed entry at once (context switches at every
+// atomic and lock operation): the entry completes exactly once, its resource ends with no entry in
+// flight, and the completion is counted once.
+func VerifC01DoubleExit() {
+	rt.SetClockMs(2000000000000)
+	sc := base.NewSlotChain()
+	rec := &verifRecorder{}
+	sc.AddStatPrepareSlot(stat.DefaultResourceNodePrepareSlot)
+	sc.AddStatSlot(stat.DefaultSlot)
+	sc.AddStatSlot(rec)
+	b := rt.U32n("batch", 4)
+	e, blk := Entry("DX", WithSlotChain(sc), WithBatchCount(b))
+	if e == nil || blk != nil {
+		rt.Assert(false, "an entry without rules is admitted")
+		return
+	}
+	n := rt.Param("N")
+	for i := 0; i < n; i++ {
+		rt.Spawn(func() { e.Exit() })
+	}
+	rt.Join()
+	rt.Reach("c01.double-exit")
+	node := stat.GetResourceNode("DX")
+	rt.Assert(rec.completed == 1, "concurrent Exit calls complete the entry exactly once")
+	rt.Assert(node != nil && node.CurrentConcurrency() == 0, "after the entry has exited its resource has no entry in flight (never negative)")
+	rt.Assert(node != nil && node.GetSum(base.MetricEventComplete) == int64(b), "the completion is counted once")
+}
